@@ -262,10 +262,10 @@ class C05(Base):
     @staticmethod
     def extra(ctx, proof, found):
         # the extracted model evaluates, on every generated history, the guard of the uniqueness theorem
-        # (Heap/Uniq.v run_ok_b) and the invariant itself (uniq_b, sound by uniq_b_sound) after every call
+        # (Heap/Uniq.v shaped_run_b) and the invariant itself (uniq_b, sound by uniq_b_sound) after every call
         st = getattr(ctx, 'model_stats', {}) or {}
         ctx.coverage['theorem_guard'] = dict(
-            histories=st.get('cases', 0), satisfying_run_ok=st.get('guard_ok', 0),
+            histories=st.get('cases', 0), satisfying_shaped_run=st.get('guard_ok', 0),
             model_uniqueness_failures_with_guard=st.get('uniq_fail_guarded', 0),
             model_uniqueness_failures_without_guard=st.get('uniq_fail_unguarded', 0),
             note='histories that use calls outside the theorem (copies, reassignIds, ...) count as not satisfying the guard')
